@@ -1251,3 +1251,934 @@ def rule_blk1(ctx):
             f"and `{ast.unparse(y)}`, not a reciprocal pair t, 1/t: the "
             "product of the two null directions is not preserved, so the "
             "matrix is not in O(n,1)", instance=inst)
+
+
+# callers of the symmetric eigensolver whose argument is Hermitian by
+# construction (reviewed): function -> reason
+EIGH_CALLERS = {
+    "diagonalize_form": "the argument is a real symmetric bilinear form "
+                        "(its docstring contract; Coxeter cosine matrices)",
+    "eigh": "utils.eigh forwarding its own argument to np.linalg.eigh",
+}
+
+
+def rule_eigh2(ctx, rels):
+    from .common import path_conditions, stmt_of
+    r = ctx.r
+    r.rule("EIGH2", "eigh (np.linalg.eigh / utils.eigh) silently assumes a "
+                    "Hermitian argument -- it reads one triangle and returns "
+                    "an orthonormal frame whatever the matrix is. It is "
+                    "called only where the argument is Hermitian by "
+                    "construction (reviewed callers) or under a test that "
+                    "compares the matrix with its CONJUGATE transpose; "
+                    "`allclose(M, M.T)` admits complex symmetric matrices, "
+                    "for which the returned frame does not diagonalise M")
+    n = 0
+    for rel in rels:
+        mod = ctx.p.module_by_rel(rel)
+        for f in ctx.p.all_functions:
+            if f.module is not mod:
+                continue
+            calls = [c for c in ast.walk(f.node) if isinstance(c, ast.Call)
+                     and dotted(c.func).split(".")[-1] == "eigh"]
+            if not calls:
+                continue
+            pc = path_conditions(f.node)
+            for c in calls:
+                n += 1
+                r.analysed(f)
+                inst = f"{f.qualname}:eigh"
+                if f.name in EIGH_CALLERS:
+                    r.ok("EIGH2", inst, loc(f, c), dotted(c)[:80],
+                         "reviewed: " + EIGH_CALLERS[f.name])
+                    continue
+                st = stmt_of(c, f.module.parents)
+                herm = False
+                for t, pol in pc.get(id(st), []):
+                    if not pol:
+                        continue
+                    txt = ast.unparse(t)
+                    if ("allclose" in txt or "array_equal" in txt
+                            or "isclose" in txt) and "conj" in txt:
+                        herm = True
+                if herm:
+                    r.ok("EIGH2", inst, loc(f, c), dotted(c)[:80],
+                         "guarded by a comparison with the conjugate "
+                         "transpose")
+                else:
+                    r.violation(
+                        "EIGH2", f"{f.fq}|eigh", loc(f, c), dotted(c)[:120],
+                        f"{f.qualname} hands a matrix to eigh that is not "
+                        "known to be Hermitian (no comparison with its "
+                        "conjugate transpose dominates the call): for a "
+                        "complex symmetric or a non-symmetric matrix the "
+                        "returned 'eigenvectors' are those of a different "
+                        "(Hermitianised) matrix and M^-1 T M is not "
+                        "diagonal", instance=inst)
+    if n == 0:
+        r.ok("EIGH2", "modules", ",".join(rels), "", "no eigh call")
+
+
+_INVERTERS = ("invert", "inv", "solve", "matrix_inverse", "inverse")
+
+
+def rule_inv3(ctx):
+    r = ctx.r
+    r.rule("INV3", "every `inv` method of the Transformation family "
+                   "(projective.Transformation and its subclasses, "
+                   "hyperbolic.Isometry among them) computes a genuine "
+                   "matrix inverse (utils.invert / np.linalg.inv / a solve) "
+                   "of the object's own matrix, or delegates to the method "
+                   "it overrides. `apply` gives the result of P @ R the type "
+                   "of R, so an Isometry-typed object need not be a matrix "
+                   "of O(n,1): a structural shortcut (J M^T J, a transpose) "
+                   "is not its inverse and A.inv() @ (A @ X) != X")
+    root = ctx.p.get_class(PROJ, "Transformation")
+    classes = [root] + ctx.p.subclasses(root)
+    n = 0
+    for c in classes:
+        f = c.methods.get("inv")
+        if f is None:
+            continue
+        n += 1
+        r.analysed(f)
+        inst = f"{c.name}.inv"
+        calls = [x for x in ast.walk(f.node) if isinstance(x, ast.Call)]
+        genuine = [x for x in calls
+                   if dotted(x.func).split(".")[-1] in _INVERTERS
+                   and not (isinstance(x.func, ast.Attribute)
+                            and dotted(x.func.value) in ("self", "super()")
+                            and x.func.attr == "inv")]
+        delegates = [x for x in calls if isinstance(x.func, ast.Attribute)
+                     and x.func.attr == "inv"
+                     and (dotted(x.func.value) == "super()"
+                          or dotted(x.func.value) in {k.name for k in
+                                                      ctx.p.mro(c)[1:]})]
+        if genuine or delegates:
+            r.ok("INV3", inst, loc(f, f.node), "",
+                 "calls " + dotted((genuine or delegates)[0].func))
+        else:
+            r.violation(
+                "INV3", f"{f.fq}|no-inverse", loc(f, f.node), f.qualname,
+                f"{c.name}.inv never calls a matrix inversion (nor the "
+                "method it overrides): what it returns is the inverse only "
+                "for matrices with the structure it assumes, and objects of "
+                "this class are also produced by composing with arbitrary "
+                "projective transformations and by the unvalidated "
+                "constructor", instance=inst)
+    if n == 0:
+        raise AnalysisError("INV3: Transformation.inv has vanished")
+
+
+def rule_invs2(ctx):
+    import copy
+    r = ctx.r
+    r.rule("INVS2", "where a generator is stored with compute_inverse=False "
+                    "the inverse letter's matrix is supplied by hand: it is "
+                    "either produced by ONE expression applied to every "
+                    "letter of a loop over all generators (copying a "
+                    "representation, composing with a homomorphism), or by "
+                    "the generator's own expression with the letter replaced "
+                    "by its inverse letter. Two separately written "
+                    "expressions that differ in more than the letter (factor "
+                    "order of a Kronecker product, a missing transpose) "
+                    "store a matrix that is not the inverse: rho(a A) != 1")
+    mod = ctx.p.module_by_rel(REP)
+    n = 0
+    for f in ctx.p.all_functions:
+        if f.module is not mod:
+            continue
+        calls = []
+        for c in ast.walk(f.node):
+            if isinstance(c, ast.Call) and dotted(c.func).split(".")[-1] in (
+                    "_set_generator", "set_generator"):
+                kw = next((k.value for k in c.keywords
+                           if k.arg == "compute_inverse"), None)
+                if isinstance(kw, ast.Constant) and kw.value is False \
+                        and len(c.args) >= 2:
+                    calls.append(c)
+        if not calls:
+            continue
+        r.analysed(f)
+        defs = single_defs(f.node)
+        loops = {}
+        for lp in ast.walk(f.node):
+            if isinstance(lp, ast.For) and isinstance(lp.target, ast.Name):
+                loops[lp.target.id] = lp
+        by_letter = {}
+        for c in calls:
+            by_letter.setdefault(dotted(c.args[0]), []).append(c)
+        done = set()
+        for letter, cs in by_letter.items():
+            if letter in done:
+                continue
+            n += 1
+            inst = f"{f.qualname}:{letter}"
+            # the inverse letter of `letter`, if it is stored as well
+            partner = None
+            for other in by_letter:
+                d = defs.get(other)
+                if isinstance(d, ast.Call) and dotted(d.func).split(".")[-1] \
+                        == "invert_gen" and d.args \
+                        and dotted(d.args[0]) == letter:
+                    partner = other
+            if partner is None:
+                if any(dotted(d.func).split(".")[-1] == "invert_gen"
+                       and dotted(d.args[0]) in by_letter
+                       for d in [defs.get(letter)]
+                       if isinstance(d, ast.Call) and d.args):
+                    continue      # handled from the generator's side
+                if letter in loops:
+                    r.ok("INVS2", inst, loc(f, cs[0]), "",
+                         "one expression for every letter of the loop")
+                else:
+                    r.note("INVS2", loc(f, cs[0]), dotted(cs[0])[:80],
+                           "letter stored without recomputing its inverse "
+                           "in a form this rule does not read (not judged)")
+                continue
+            done.add(partner)
+            e1 = cs[0].args[1]
+            e2 = by_letter[partner][0].args[1]
+
+            class Sub(ast.NodeTransformer):
+                def visit_Name(self, nm):
+                    if nm.id == partner:
+                        return ast.copy_location(
+                            ast.Name(letter, nm.ctx), nm)
+                    return nm
+            e2s = Sub().visit(copy.deepcopy(e2))
+            if ast.dump(e2s) == ast.dump(e1):
+                r.ok("INVS2", inst, loc(f, cs[0]), "",
+                     f"`{partner}` gets the same expression as `{letter}`")
+            else:
+                r.violation(
+                    "INVS2", f"{f.fq}|{letter}|{partner}",
+                    loc(f, by_letter[partner][0]),
+                    dotted(by_letter[partner][0])[:140],
+                    f"`{letter}` is stored as `{ast.unparse(e1)[:60]}` and "
+                    f"its inverse letter `{partner}` as "
+                    f"`{ast.unparse(e2)[:60]}`, both without recomputing "
+                    "the inverse: the two expressions differ in more than "
+                    "the letter, so the stored pair is not a matrix and its "
+                    "inverse (every word containing an inverse letter gets "
+                    "the wrong image)", instance=inst)
+    if n == 0:
+        r.note("INVS2", REP, "compute_inverse=False",
+               "no generator is stored with a literal compute_inverse=False "
+               "(nothing to judge)")
+
+
+def rule_s1u(ctx):
+    r = ctx.r
+    r.rule("S1u", "type conversions treat the three data slots alike: in "
+                  "ProjectiveObject.astype and change_base_ring the values "
+                  "handed to the constructor for proj_data, aux_data and "
+                  "dual_data are produced from their own slot by the same "
+                  "set of operations (backward slice of each argument "
+                  "through every assignment, conditional ones included). "
+                  "An extra step on one slot (rounding the primary data "
+                  "only) makes the stored derived data differ from what is "
+                  "recomputed from the primary data")
+    n = 0
+    for q in ("ProjectiveObject.astype", "ProjectiveObject.change_base_ring"):
+        f = ctx.p.get_function(PROJ, q)
+        r.analysed(f)
+        sinks = [c for c in ast.walk(f.node) if isinstance(c, ast.Call)
+                 and dotted(c.func).split(".")[-1] in (
+                     "ProjectiveObject", "set", "__class__")
+                 and (len(c.args) >= 3 or {k.arg for k in c.keywords} >= {
+                     "proj_data", "aux_data", "dual_data"})]
+        if not sinks:
+            r.note("S1u", loc(f, f.node), q,
+                   "no constructor / set call taking the three slots found "
+                   "(not judged)")
+            continue
+        assigns = {}
+        for st in ast.walk(f.node):
+            if isinstance(st, ast.Assign):
+                for t in st.targets:
+                    if isinstance(t, ast.Name):
+                        assigns.setdefault(t.id, []).append(st.value)
+
+        def ops_of(e):
+            seen, ops, slots = set(), set(), set()
+            todo = [e]
+            while todo:
+                x = todo.pop()
+                for y in ast.walk(x):
+                    if isinstance(y, ast.Call):
+                        nm = dotted(y.func).split(".")[-1]
+                        if nm not in ("dtype",):
+                            ops.add(nm)
+                    if isinstance(y, ast.Attribute) and y.attr in (
+                            "proj_data", "aux_data", "dual_data") \
+                            and dotted(y.value) == "self":
+                        slots.add(y.attr)
+                    if isinstance(y, ast.Name) and y.id in assigns \
+                            and y.id not in seen:
+                        seen.add(y.id)
+                        todo.extend(assigns[y.id])
+            return ops, slots
+        for c in sinks:
+            n += 1
+            args = {}
+            for k, nm in enumerate(("proj_data", "aux_data", "dual_data")):
+                a = next((kw.value for kw in c.keywords if kw.arg == nm),
+                         c.args[k] if k < len(c.args) else None)
+                args[nm] = a
+            if any(a is None for a in args.values()):
+                continue
+            got = {nm: ops_of(a) for nm, a in args.items()}
+            inst = f"{q}:slots"
+            base_ops = got["proj_data"][0]
+            odd = [nm for nm in ("aux_data", "dual_data")
+                   if got[nm][0] != base_ops]
+            if not odd:
+                r.ok("S1u", inst, loc(f, c), "",
+                     "the three slots go through "
+                     + (", ".join(sorted(base_ops)) or "no operation"))
+            else:
+                diff = sorted(base_ops ^ got[odd[0]][0])
+                r.violation(
+                    "S1u", f"{f.fq}|{'+'.join(diff)[:60]}", loc(f, c),
+                    dotted(c)[:120],
+                    f"proj_data reaches the constructor through "
+                    f"{sorted(base_ops)} but {odd[0]} through "
+                    f"{sorted(got[odd[0]][0])}: the slots are converted "
+                    f"differently ({', '.join(diff)}), so for a Polygon / "
+                    "Segment the stored edges / ideal endpoints are no "
+                    "longer the ones determined by the stored vertices",
+                    instance=inst)
+    if n == 0:
+        r.note("S1u", PROJ, "astype / change_base_ring",
+               "no sink recognised (not judged)")
+
+
+def rule_ori1(ctx):
+    r = ctx.r
+    r.rule("ORI1", "make_orientation_preserving changes the sign of the "
+                   "determinant in every dimension: the sign flip it applies "
+                   "to orientation-reversing matrices selects ONE row or "
+                   "column (a constant integer index on a matrix axis). "
+                   "Negating k rows multiplies det by (-1)^k, so negating "
+                   "the whole n x n matrix leaves the determinant negative "
+                   "whenever n is even (H^3, H^5: force_oriented=True "
+                   "returns orientation-reversing isometries)")
+    f = ctx.p.get_function(CORE, "make_orientation_preserving")
+    r.analysed(f)
+    flips = []
+    for st in ast.walk(f.node):
+        neg = None
+        if isinstance(st, ast.AugAssign) and isinstance(st.op, ast.Mult) \
+                and const_value(st.value) in (-1, -1.0):
+            neg = st.target
+        elif isinstance(st, ast.Assign) and len(st.targets) == 1 \
+                and isinstance(st.value, ast.UnaryOp) \
+                and isinstance(st.value.op, ast.USub) \
+                and ast.dump(st.value.operand).replace("Load()", "") \
+                == ast.dump(st.targets[0]).replace("Store()", ""):
+            neg = st.targets[0]
+        elif isinstance(st, ast.Assign) and isinstance(st.value, ast.BinOp) \
+                and isinstance(st.value.op, ast.Mult) and (
+                    const_value(st.value.right) in (-1, -1.0)
+                    or const_value(st.value.left) in (-1, -1.0)) \
+                and len(st.targets) == 1:
+            neg = st.targets[0]
+        if neg is not None:
+            flips.append((st, neg))
+    # np.where(mask, -m, m) on whole matrices
+    for c in ast.walk(f.node):
+        if isinstance(c, ast.Call) and dotted(c.func) in ("np.where",) \
+                and len(c.args) == 3 and any(
+                    isinstance(a, ast.UnaryOp) and isinstance(a.op, ast.USub)
+                    and isinstance(a.operand, ast.Name) for a in c.args[1:]):
+            flips.append((c, None))
+    if not flips:
+        r.note("ORI1", loc(f, f.node), "make_orientation_preserving",
+               "no sign flip recognised (not judged)")
+        return
+    for st, tgt in flips:
+        inst = "make_orientation_preserving:flip"
+        single = False
+        if isinstance(tgt, ast.Subscript):
+            sl = tgt.slice
+            idx = list(sl.elts) if isinstance(sl, ast.Tuple) else [sl]
+            single = any(isinstance(const_value(i), int)
+                         and not isinstance(const_value(i), bool)
+                         for i in idx)
+        if single:
+            r.ok("ORI1", inst, loc(f, st), norm_stmt(st)[:80]
+                 if isinstance(st, ast.stmt) else dotted(st)[:80],
+                 "one row / column is negated")
+        else:
+            r.violation(
+                "ORI1", f"{f.fq}|flip", loc(f, st),
+                (norm_stmt(st) if isinstance(st, ast.stmt)
+                 else dotted(st))[:120],
+                "the sign flip is applied to whole matrices (no constant "
+                "row / column index): det(-A) = (-1)^n det(A), so in even "
+                "ambient dimension the result still reverses orientation "
+                "although force_oriented=True promises a positive "
+                "determinant", instance=inst)
+
+
+_NONNEG_FUNCS = {"abs", "absolute", "fabs", "sqrt", "square", "exp", "cosh",
+                 "hypot"}
+_KEEP_SIGN_METHODS = {"astype", "copy", "reshape", "squeeze", "flatten",
+                      "ravel", "swapaxes", "transpose"}
+
+
+def rule_nonneg1(ctx, rels):
+    r = ctx.r
+    r.rule("NONNEG1", "belief contradiction: a quantity that is provably "
+                      "non-negative at that point of the function (the "
+                      "result of abs / sqrt / square / exp, a Euclidean "
+                      "square norm, sums and products of such, carried "
+                      "through astype / indexing / re-binding of the same "
+                      "name; flow-sensitive over the statement order) is "
+                      "compared with `< 0` or `>= 0`. The comparison is "
+                      "constant, so the code that depends on it (counting "
+                      "negative eigenvalues to put the timelike direction "
+                      "first) no longer does what it was written for")
+    n = 0
+    for rel in rels:
+        mod = ctx.p.module_by_rel(rel)
+        for f in ctx.p.all_functions:
+            if f.module is not mod:
+                continue
+            found = []
+
+            def nonneg(e, env):
+                c = const_value(e)
+                if isinstance(c, (int, float)) and not isinstance(c, bool):
+                    return c >= 0
+                if isinstance(e, ast.Name):
+                    return env.get(e.id, False)
+                if isinstance(e, ast.Call):
+                    fn = dotted(e.func)
+                    last = fn.split(".")[-1]
+                    if last in _NONNEG_FUNCS and (fn.startswith(
+                            ("np.", "numpy.", "math.", "utils."))
+                            or fn == "abs"):
+                        return True
+                    if last == "normsq" and len(e.args) == 1 \
+                            and not e.keywords:
+                        return True          # Euclidean square norm
+                    if isinstance(e.func, ast.Attribute) \
+                            and e.func.attr in _KEEP_SIGN_METHODS:
+                        return nonneg(e.func.value, env)
+                    if last in ("real", "asarray", "array", "atleast_1d",
+                                "expand_dims", "squeeze") and e.args:
+                        return nonneg(e.args[0], env)
+                    return False
+                if isinstance(e, ast.Subscript):
+                    return nonneg(e.value, env)
+                if isinstance(e, ast.Attribute) and e.attr in ("real", "T"):
+                    return nonneg(e.value, env)
+                if isinstance(e, ast.BinOp):
+                    if isinstance(e.op, ast.Pow):
+                        p = const_value(e.right)
+                        if isinstance(p, int) and p % 2 == 0:
+                            return True
+                        return nonneg(e.left, env) and isinstance(
+                            p, (int, float))
+                    if isinstance(e.op, (ast.Add, ast.Mult, ast.Div)):
+                        return nonneg(e.left, env) and nonneg(e.right, env)
+                return False
+
+            def check(e, env):
+                for c in ast.walk(e):
+                    if not (isinstance(c, ast.Compare) and len(c.ops) == 1):
+                        continue
+                    a, op, b = c.left, c.ops[0], c.comparators[0]
+                    if const_value(a) in (0, 0.0) and const_value(b) is None:
+                        a, b = b, a
+                        op = {ast.Lt: ast.Gt, ast.Gt: ast.Lt, ast.LtE: ast.GtE,
+                              ast.GtE: ast.LtE}.get(type(op), type(op))()
+                    if const_value(b) not in (0, 0.0) or isinstance(
+                            const_value(b), bool):
+                        continue
+                    if isinstance(op, (ast.Lt, ast.GtE)) and nonneg(a, env):
+                        found.append((c, isinstance(op, ast.Lt)))
+
+            def walk(stmts, env):
+                for s in stmts:
+                    if isinstance(s, (ast.FunctionDef, ast.ClassDef)):
+                        continue
+                    if isinstance(s, ast.If):
+                        check(s.test, env)
+                        e1, e2 = dict(env), dict(env)
+                        walk(s.body, e1)
+                        walk(s.orelse, e2)
+                        for k in set(e1) | set(e2):
+                            env[k] = e1.get(k, False) and e2.get(k, False)
+                        continue
+                    if isinstance(s, (ast.For, ast.While)):
+                        assigned = {t.id for x in ast.walk(s)
+                                    for t in ([x] if isinstance(x, ast.Name)
+                                              and isinstance(x.ctx, ast.Store)
+                                              else [])}
+                        for k in assigned:
+                            env[k] = False
+                        walk(s.body, env)
+                        for k in assigned:
+                            env[k] = False
+                        continue
+                    if isinstance(s, ast.Try):
+                        walk(s.body, env)
+                        for h in s.handlers:
+                            walk(h.body, env)
+                        walk(s.orelse, env)
+                        walk(s.finalbody, env)
+                        continue
+                    if isinstance(s, ast.With):
+                        walk(s.body, env)
+                        continue
+                    check(s, env)
+                    if isinstance(s, ast.Assign) and len(s.targets) == 1 \
+                            and isinstance(s.targets[0], ast.Name):
+                        env[s.targets[0].id] = nonneg(s.value, env)
+                    elif isinstance(s, ast.Assign):
+                        for t in s.targets:
+                            for x in ast.walk(t):
+                                if isinstance(x, ast.Name):
+                                    env[x.id] = False
+                    elif isinstance(s, ast.AugAssign) and isinstance(
+                            s.target, ast.Name):
+                        keep = isinstance(s.op, (ast.Add, ast.Mult)) \
+                            and env.get(s.target.id, False) \
+                            and nonneg(s.value, env)
+                        env[s.target.id] = keep
+                    elif isinstance(s, ast.AugAssign):
+                        for x in ast.walk(s.target):
+                            if isinstance(x, ast.Name):
+                                env[x.id] = False
+                    # in-place stores may put anything into a buffer
+                    if isinstance(s, ast.Assign):
+                        for t in s.targets:
+                            if isinstance(t, ast.Subscript) and isinstance(
+                                    t.value, ast.Name) \
+                                    and not nonneg(s.value, env):
+                                env[t.value.id] = False
+            walk(f.node.body, {})
+            for c, is_lt in found:
+                n += 1
+                r.analysed(f)
+                r.violation(
+                    "NONNEG1", f"{f.fq}|{ast.unparse(c)[:60]}", loc(f, c),
+                    ast.unparse(c)[:120],
+                    f"`{ast.unparse(c.left)[:50]}` is non-negative here (it "
+                    "went through abs / sqrt / an even power since its "
+                    f"signed source), so `{ast.unparse(c)[:60]}` is always "
+                    f"{'False' if is_lt else 'True'}: the sign information "
+                    "this test was written to read has been destroyed "
+                    "before it", instance=f"{f.qualname}:{ast.unparse(c)[:40]}")
+    if n == 0:
+        r.ok("NONNEG1", "modules", ",".join(rels), "",
+             "no comparison of a provably non-negative quantity with 0")
+
+
+# ---------------------------------------------------------------------------
+# ZD2: strict interval analysis of the divisors of the model conversions
+
+class _IV:
+    """an interval with open / closed ends; None stands for 'unknown'"""
+    __slots__ = ("lo", "lo_open", "hi", "hi_open")
+
+    def __init__(self, lo, lo_open, hi, hi_open):
+        self.lo, self.lo_open, self.hi, self.hi_open = lo, lo_open, hi, hi_open
+
+    def __repr__(self):
+        return (("(" if self.lo_open else "[") + f"{self.lo:g}, {self.hi:g}"
+                + (")" if self.hi_open else "]"))
+
+    def has_zero(self):
+        if self.lo > 0 or self.hi < 0:
+            return False
+        if self.lo == 0 and self.lo_open:
+            return False
+        if self.hi == 0 and self.hi_open:
+            return False
+        return True
+
+
+def _iv_const(c):
+    return _IV(float(c), False, float(c), False)
+
+
+def _iv_add(a, b):
+    return _IV(a.lo + b.lo, a.lo_open or b.lo_open,
+               a.hi + b.hi, a.hi_open or b.hi_open)
+
+
+def _iv_neg(a):
+    return _IV(-a.hi, a.hi_open, -a.lo, a.lo_open)
+
+
+def _iv_mul(a, b):
+    cands = []
+    for x, xo in ((a.lo, a.lo_open), (a.hi, a.hi_open)):
+        for y, yo in ((b.lo, b.lo_open), (b.hi, b.hi_open)):
+            if (x == 0 and abs(y) == _INF) or (y == 0 and abs(x) == _INF):
+                v = 0.0
+            else:
+                v = x * y
+            # an end point is attained only if both factors attain theirs
+            # (or one of them is an attained zero)
+            attained = (not xo and not yo) or (x == 0 and not xo) \
+                or (y == 0 and not yo)
+            cands.append((v, not attained))
+    lo = min(v for v, _ in cands)
+    hi = max(v for v, _ in cands)
+    lo_open = all(o for v, o in cands if v == lo)
+    hi_open = all(o for v, o in cands if v == hi)
+    return _IV(lo, lo_open, hi, hi_open)
+
+
+def _iv_square(a):
+    lo_abs = 0.0 if a.lo <= 0 <= a.hi else min(abs(a.lo), abs(a.hi))
+    if a.lo <= 0 <= a.hi:
+        zero_in = not ((a.lo == 0 and a.lo_open) or (a.hi == 0 and a.hi_open))
+        lo_open = not zero_in
+    else:
+        lo_open = a.lo_open if abs(a.lo) < abs(a.hi) else a.hi_open
+    if abs(a.lo) > abs(a.hi):
+        hi, hi_open = a.lo * a.lo, a.lo_open
+    elif abs(a.lo) < abs(a.hi):
+        hi, hi_open = a.hi * a.hi, a.hi_open
+    else:
+        hi, hi_open = a.hi * a.hi, a.lo_open and a.hi_open
+    return _IV(lo_abs * lo_abs, lo_open, hi, hi_open)
+
+
+def _iv_mono(a, g, lo_limit=None):
+    """image under an increasing function g"""
+    lo = g(a.lo) if abs(a.lo) != _INF else (lo_limit if a.lo < 0 else _INF)
+    hi = g(a.hi) if abs(a.hi) != _INF else _INF
+    return _IV(lo, a.lo_open, hi, a.hi_open)
+
+
+def _sinterval(e, env):
+    """strict interval of expression e; env: name -> _IV; None = unknown"""
+    c = const_value(e)
+    if isinstance(c, (int, float)) and not isinstance(c, bool):
+        return _iv_const(c)
+    if isinstance(e, ast.Name):
+        return env.get(e.id)
+    if isinstance(e, ast.UnaryOp) and isinstance(e.op, ast.USub):
+        a = _sinterval(e.operand, env)
+        return None if a is None else _iv_neg(a)
+    if isinstance(e, ast.Subscript):
+        key = ("sub", ast.unparse(e))
+        if key in env:
+            return env[key]
+        v = _sinterval(e.value, env)
+        # np.newaxis / slicing keeps the value set
+        return v
+    if isinstance(e, ast.Attribute) and e.attr in ("T", "real"):
+        return _sinterval(e.value, env)
+    if isinstance(e, ast.BinOp):
+        a, b = _sinterval(e.left, env), _sinterval(e.right, env)
+        if isinstance(e.op, ast.Pow) and const_value(e.right) == 2:
+            return None if a is None else _iv_square(a)
+        if a is None or b is None:
+            return None
+        if isinstance(e.op, ast.Add):
+            return _iv_add(a, b)
+        if isinstance(e.op, ast.Sub):
+            return _iv_add(a, _iv_neg(b))
+        if isinstance(e.op, ast.Mult):
+            if ast.dump(e.left) == ast.dump(e.right):
+                return _iv_square(a)
+            return _iv_mul(a, b)
+        if isinstance(e.op, ast.Div):
+            if b.has_zero():
+                return None
+            inv = _IV(1 / b.hi if b.hi not in (0, _INF, -_INF) else (
+                0.0 if abs(b.hi) == _INF else (_INF if b.lo > 0 else -_INF)),
+                b.hi_open or abs(b.hi) == _INF,
+                1 / b.lo if b.lo not in (0, _INF, -_INF) else (
+                0.0 if abs(b.lo) == _INF else (_INF if b.hi > 0 else -_INF)),
+                b.lo_open or abs(b.lo) == _INF)
+            if inv.lo > inv.hi:
+                inv = _IV(inv.hi, inv.hi_open, inv.lo, inv.lo_open)
+            return _iv_mul(a, inv)
+        return None
+    if isinstance(e, ast.Call):
+        fn = dotted(e.func).split(".")[-1]
+        args = list(e.args)
+        if isinstance(e.func, ast.Attribute) and e.func.attr in (
+                "astype", "copy", "squeeze", "reshape", "swapaxes") \
+                and not dotted(e.func).startswith(("np.", "utils.")):
+            return _sinterval(e.func.value, env)
+        if fn in ("atleast_1d", "asarray", "array", "expand_dims", "squeeze",
+                  "real", "copy") and args:
+            return _sinterval(args[0], env)
+        if fn == "normsq" and len(args) == 1 and not e.keywords:
+            key = ("normsq", ast.unparse(args[0]))
+            if key in env:
+                return env[key]
+            a = _sinterval(args[0], env)
+            return _IV(0.0, False, _INF, True)
+        if fn in ("abs", "absolute", "fabs") and args:
+            a = _sinterval(args[0], env)
+            if a is None:
+                return _IV(0.0, False, _INF, True)
+            sq = _iv_square(a)
+            return _IV(_math.sqrt(sq.lo), sq.lo_open,
+                       _math.sqrt(sq.hi) if sq.hi != _INF else _INF,
+                       sq.hi_open)
+        if fn == "sqrt" and args:
+            a = _sinterval(args[0], env)
+            if a is None:
+                return _IV(0.0, False, _INF, True)
+            lo = max(a.lo, 0.0)
+            return _IV(_math.sqrt(lo), a.lo_open if a.lo >= 0 else False,
+                       _math.sqrt(a.hi) if a.hi != _INF else _INF, a.hi_open)
+        if fn in ("minimum", "maximum") and len(args) == 2:
+            a, b = _sinterval(args[0], env), _sinterval(args[1], env)
+            if a is None or b is None:
+                return None
+            pick = min if fn == "minimum" else max
+            lo = pick((a.lo, a.lo_open), (b.lo, b.lo_open),
+                      key=lambda t: t[0])
+            hi = pick((a.hi, a.hi_open), (b.hi, b.hi_open),
+                      key=lambda t: t[0])
+            return _IV(lo[0], lo[1], hi[0], hi[1])
+        if fn in ("tanh", "arctanh", "exp", "sinh", "arcsinh", "arctan") \
+                and args:
+            a = _sinterval(args[0], env)
+            if a is None:
+                return None
+            if fn == "exp":
+                return _IV(_math.exp(a.lo) if a.lo != -_INF else 0.0,
+                           a.lo_open or a.lo == -_INF,
+                           _math.exp(a.hi) if a.hi != _INF else _INF,
+                           a.hi_open)
+            if fn == "arctanh":
+                if a.lo < -1 or a.hi > 1:
+                    return None
+                g = lambda x: _INF if x >= 1 else (-_INF if x <= -1
+                                                   else _math.atanh(x))
+                return _IV(g(a.lo), a.lo_open, g(a.hi), a.hi_open)
+            g = {"tanh": _math.tanh, "sinh": _math.sinh,
+                 "arcsinh": _math.asinh, "arctan": _math.atan}[fn]
+            lim = {"tanh": 1.0, "arctan": _math.pi / 2}.get(fn, _INF)
+            return _IV(g(a.lo) if a.lo != -_INF else -lim,
+                       a.lo_open or a.lo == -_INF,
+                       g(a.hi) if a.hi != _INF else lim,
+                       a.hi_open or a.hi == _INF)
+        if fn == "cosh" and args:
+            return _IV(1.0, False, _INF, True)
+        return None
+    return None
+
+
+# the documented domain of each conversion's argument: every coordinate of
+# a Klein / Poincare point lies in (-1, 1) and the square norm in [0, 1);
+# the last half-space coordinate (the height) is positive
+ZD2_DOMAINS = {
+    "kleinian_to_poincare": "ball", "poincare_to_kleinian": "ball",
+    "poincare_to_halfspace": "ball", "halfspace_to_poincare": "halfspace",
+}
+
+
+def rule_zd2(ctx):
+    r = ctx.r
+    r.rule("ZD2", "no model conversion divides by a quantity that vanishes "
+                  "at an interior point: strict interval analysis (open / "
+                  "closed ends) of every divisor in kleinian_to_poincare, "
+                  "poincare_to_kleinian, poincare_to_halfspace and "
+                  "halfspace_to_poincare over the documented domain of the "
+                  "argument (ball models: every coordinate in (-1, 1), "
+                  "square norm in [0, 1); half-space: height in (0, inf)). "
+                  "A divisor whose interval contains 0 -- the radius of the "
+                  "point, which is 0 at the centre of the ball -- gives nan "
+                  "there, silently under np.errstate")
+    n = 0
+    for q, dom in ZD2_DOMAINS.items():
+        f = ctx.p.get_function(HYP, q)
+        r.analysed(f)
+        if not f.params:
+            continue
+        p = f.params[0]
+        env = {}
+        if dom == "ball":
+            env[p] = _IV(-1.0, True, 1.0, True)
+            env[("normsq", p)] = _IV(0.0, False, 1.0, True)
+        else:
+            env[p] = None
+        divs = []
+
+        def record(node, divisor, env_now):
+            divs.append((node, divisor, _sinterval(divisor, env_now)))
+
+        def bind(name, value, env_now):
+            iv = _sinterval(value, env_now)
+            # components of the argument
+            if isinstance(value, ast.Subscript) and isinstance(
+                    value.value, ast.Name) and value.value.id == p:
+                sl = value.slice
+                idx = list(sl.elts) if isinstance(sl, ast.Tuple) else [sl]
+                last = idx[-1] if idx else None
+                if dom == "ball":
+                    iv = _IV(-1.0, True, 1.0, True)
+                    env_now[("normsq", name)] = _IV(0.0, False, 1.0, True)
+                elif const_value(last) == -1:
+                    iv = _IV(0.0, True, _INF, True)       # the height
+                else:
+                    iv = None
+            env_now[name] = iv
+
+        def walk(stmts, env_now):
+            nonlocal n
+            for s in stmts:
+                if isinstance(s, ast.With):
+                    walk(s.body, env_now)
+                    continue
+                if isinstance(s, (ast.If, ast.For, ast.While, ast.Try)):
+                    # conversions are straight-line; anything else: unknown
+                    for x in ast.walk(s):
+                        if isinstance(x, ast.Name) and isinstance(
+                                x.ctx, ast.Store):
+                            env_now[x.id] = None
+                    continue
+                for x in ast.walk(s):
+                    if isinstance(x, ast.BinOp) and isinstance(x.op, ast.Div):
+                        record(x, x.right, env_now)
+                    if isinstance(x, ast.Call) and dotted(x.func) in (
+                            "np.divide", "np.true_divide") and len(
+                            x.args) >= 2 and not any(
+                            k.arg == "where" for k in x.keywords):
+                        record(x, x.args[1], env_now)
+                if isinstance(s, ast.Assign) and len(s.targets) == 1 \
+                        and isinstance(s.targets[0], ast.Name):
+                    bind(s.targets[0].id, s.value, env_now)
+        walk(f.node.body, env)
+        for node, divisor, iv in divs:
+            n += 1
+            inst = f"{q}:/{ast.unparse(divisor)[:40]}"
+            if iv is None:
+                r.note("ZD2", loc(f, node), ast.unparse(node)[:80],
+                       "range of the divisor not determined (not judged)")
+            elif iv.has_zero():
+                r.violation(
+                    "ZD2", f"{f.fq}|{ast.unparse(divisor)[:50]}",
+                    loc(f, node), ast.unparse(node)[:120],
+                    f"over the interior points the divisor "
+                    f"`{ast.unparse(divisor)[:50]}` ranges over {iv!r}, "
+                    "which contains 0: at the interior point where it "
+                    "vanishes (the centre of the ball) the conversion "
+                    "returns nan / inf, and every round trip through this "
+                    "model loses that point", instance=inst)
+            else:
+                r.ok("ZD2", inst, loc(f, node), ast.unparse(node)[:80],
+                     f"divisor ranges over {iv!r}")
+    if n == 0:
+        r.note("ZD2", HYP, "conversions", "no division found (not judged)")
+
+
+def _conv_kind(e, defs, depth=0):
+    """row / column convention of a matrix expression: `.proj_data`,
+    `.matrix` and find_isometry frames are ROW matrices (rows are the
+    images of the basis); a transpose flips the convention; inverse, copy,
+    astype, orientation fix and products of one kind keep it"""
+    flip = {"ROW": "COL", "COL": "ROW"}
+    if depth > 6 or e is None:
+        return None
+    if isinstance(e, ast.Name) and e.id in defs:
+        return _conv_kind(defs[e.id], defs, depth + 1)
+    if isinstance(e, ast.Attribute):
+        if e.attr in ("proj_data", "matrix"):
+            return "ROW"
+        if e.attr == "T":
+            return flip.get(_conv_kind(e.value, defs, depth + 1))
+        return None
+    if isinstance(e, ast.Call):
+        fn = dotted(e.func)
+        last = fn.split(".")[-1]
+        is_np = fn.startswith(("np.", "numpy.", "utils."))
+        recv = e.func.value if isinstance(e.func, ast.Attribute) \
+            and not is_np else None
+        first = e.args[0] if e.args else None
+        if last == "find_isometry":
+            return "ROW"
+        if last in ("swapaxes", "transpose"):
+            base = recv if recv is not None else first
+            axes = e.args if recv is not None else e.args[1:]
+            if last == "swapaxes" and sorted(
+                    const_value(a, "?") for a in axes) != [-2, -1]:
+                return None
+            return flip.get(_conv_kind(base, defs, depth + 1))
+        if last in ("copy", "astype", "make_orientation_preserving",
+                    "invert", "inv", "real", "array", "asarray"):
+            base = recv if recv is not None and last in ("copy", "astype") \
+                else first
+            return _conv_kind(base, defs, depth + 1)
+        return None
+    if isinstance(e, ast.BinOp) and isinstance(e.op, ast.MatMult):
+        a = _conv_kind(e.left, defs, depth + 1)
+        b = _conv_kind(e.right, defs, depth + 1)
+        return a if a is not None and a == b else None
+    return None
+
+
+def rule_rc2(ctx, rels):
+    r = ctx.r
+    r.rule("RC2", "convention typing of matrices handed to Isometry(..) / "
+                  "Transformation(..) / self.__class__(..): the stored data "
+                  "of a transformation (`.proj_data`, `.matrix`) and a frame "
+                  "completed by find_isometry are ROW matrices, a transpose "
+                  "makes a COLUMN matrix; a ROW matrix is wrapped with "
+                  "column_vectors False (the default), a COLUMN matrix with "
+                  "column_vectors=True. Wrapping the transpose of a frame "
+                  "with the row flag stores the transposed map, which for a "
+                  "matrix of O(n,1) is a different isometry (not its "
+                  "inverse)")
+    n = 0
+    for rel in rels:
+        mod = ctx.p.module_by_rel(rel)
+        for f in ctx.p.all_functions:
+            if f.module is not mod:
+                continue
+            defs = single_defs(f.node)
+            for c in ast.walk(f.node):
+                if not (isinstance(c, ast.Call) and c.args and dotted(
+                        c.func).split(".")[-1] in (
+                        "Isometry", "Transformation", "__class__")):
+                    continue
+                k = _conv_kind(c.args[0], defs)
+                if k is None:
+                    continue
+                cv = False
+                if len(c.args) > 1:
+                    cv = const_value(c.args[1], "?")
+                for kw in c.keywords:
+                    if kw.arg == "column_vectors":
+                        cv = const_value(kw.value, "?")
+                if cv == "?":
+                    continue
+                n += 1
+                r.analysed(f)
+                inst = f"{f.qualname}:{dotted(c.func)}"
+                want = (k == "COL")
+                if bool(cv) == want:
+                    r.ok("RC2", inst, loc(f, c), dotted(c)[:80],
+                         f"{k} matrix, column_vectors={bool(cv)}")
+                else:
+                    r.violation(
+                        "RC2", f"{f.fq}|{dotted(c)[:60]}", loc(f, c),
+                        dotted(c)[:140],
+                        f"`{ast.unparse(c.args[0])[:60]}` is a "
+                        f"{'column' if k == 'COL' else 'row'} matrix (a "
+                        "transposed frame / stored transformation data) but "
+                        f"it is wrapped with column_vectors={bool(cv)}: the "
+                        "object stores the transpose of the intended map; "
+                        "for an isometry frame that is another isometry, "
+                        "not its inverse, so the composed map no longer "
+                        "carries the first tangent vector to the second",
+                        instance=inst)
+    if n == 0:
+        r.note("RC2", ",".join(rels), "constructor calls",
+               "no constructor call with an argument of known convention "
+               "(not judged)")
